@@ -280,6 +280,47 @@ theorem literal_inverts (lit rest : List Nat) : InvertsAt (.literal lit) ⟨lit,
   rw [if_neg (by omega), List.take_left, if_neg (by simp), List.drop_left]
   rfl
 
+/-- a text that starts with a white-space character: the character's bytes are a prefix that is read as
+that one character whatever follows -/
+theorem wsLen_prefix (s : List Nat) (h : wsLen s ≠ 0) :
+    ∃ c r, s = c ++ r ∧ c.length = wsLen s ∧ c ≠ [] ∧ ∀ t, wsLen (c ++ t) = c.length := by
+  cases s with
+  | nil => simp [wsLen] at h
+  | cons b rest =>
+    by_cases h1 : (9 ≤ b ∧ b ≤ 13) ∨ b = 32
+    · exact ⟨[b], rest, rfl, by simp [wsLen, h1], by simp, fun t => by simp [wsLen, h1]⟩
+    · have two : ∀ c r, rest = c :: r → wsLen (b :: rest) = 2 →
+          (∀ t, wsLen ([b, c] ++ t) = 2) →
+          ∃ c' r', b :: rest = c' ++ r' ∧ c'.length = wsLen (b :: rest) ∧ c' ≠ [] ∧ ∀ t, wsLen (c' ++ t) = c'.length := by
+        intro c r e hw ht
+        subst e
+        exact ⟨[b, c], r, rfl, by rw [hw]; rfl, by simp, fun t => by rw [ht t]; rfl⟩
+      have three : ∀ c d r, rest = c :: d :: r → wsLen (b :: rest) = 3 →
+          (∀ t, wsLen ([b, c, d] ++ t) = 3) →
+          ∃ c' r', b :: rest = c' ++ r' ∧ c'.length = wsLen (b :: rest) ∧ c' ≠ [] ∧ ∀ t, wsLen (c' ++ t) = c'.length := by
+        intro c d r e hw ht
+        subst e
+        exact ⟨[b, c, d], r, rfl, by rw [hw]; rfl, by simp, fun t => by rw [ht t]; rfl⟩
+      rcases rest with _ | ⟨c, _ | ⟨d, r⟩⟩
+      · exfalso; apply h; simp [wsLen, h1]
+      · -- two bytes
+        by_cases hb : b = 194 ∧ (c = 133 ∨ c = 160)
+        · obtain ⟨rfl, hc⟩ := hb
+          exact two c [] rfl (by simp [wsLen, hc]) (fun t => by simp [wsLen, hc])
+        · exfalso; apply h
+          simp only [wsLen, h1, if_false]
+          split <;> simp_all
+      · by_cases hb : b = 194 ∧ (c = 133 ∨ c = 160)
+        · obtain ⟨rfl, hc⟩ := hb
+          exact two c (d :: r) rfl (by simp [wsLen, hc]) (fun t => by simp [wsLen, hc])
+        · by_cases h3 : wsLen (b :: c :: d :: r) = 3
+          · refine three c d r rfl h3 (fun t => ?_)
+            simp only [wsLen, h1, if_false] at h3 ⊢
+            simp only [List.cons_append, List.nil_append]
+            split at h3 <;> simp_all
+          · exfalso; apply h
+            simp only [wsLen, h1, if_false] at h3 ⊢
+            split <;> simp_all
 /-- a white-space item skips *any* run of white-space characters (also none), provided what
 follows does not start with white space -/
 theorem space_inverts (sp : List Nat) (cs : List (List Nat)) (rest : List Nat) (h : WsChars cs)
